@@ -1,10 +1,11 @@
 #!/bin/bash
-# usage: tools/seedqueue.sh C14 C15 ...   -> runs seedtest for m1..m3 of each property sequentially, logs in /tmp/sw_<P>_<m>.log
+# usage: [MUTDIR=/tmp/mut] [NAMES="m1 m2 m3"] tools/seedqueue.sh C14 C15 ...  -> runs seedtest for each change sequentially, logs in /tmp/sw_<P>_<m>.log
+MUTDIR=${MUTDIR:-/tmp/mut}; NAMES=${NAMES:-"m1 m2 m3"}
 for P in "$@"; do
-  for m in m1 m2 m3; do
-    if [ -f /tmp/mut/$P/_out/$m.diff ]; then
-      CHECK_N=${CHECK_N:-8} SUITE_N=${SUITE_N:-6} /verif/tools/seedtest.sh $P $m /tmp/mut/$P/_out/$m.diff /tmp/mut/$P/_out/demo_$m.py /tmp/mut/$P/_out/$m.json > /tmp/sw_${P}_$m.log 2>&1
+  for m in $NAMES; do
+    if [ -f $MUTDIR/$P/_out/$m.diff ]; then
+      CHECK_N=${CHECK_N:-8} SUITE_N=${SUITE_N:-6} /verif/tools/seedtest.sh $P $m $MUTDIR/$P/_out/$m.diff $MUTDIR/$P/_out/demo_$m.py $MUTDIR/$P/_out/$m.json $EXTRA_CHECKS > /tmp/sw_${P}_$m.log 2>&1
     fi
   done
-  echo finished > /tmp/sw_${P}_done
+  echo finished > /tmp/sw_${P}_done_$(echo $NAMES | tr ' ' '_')
 done
